@@ -175,7 +175,23 @@ pub fn answer(tz: &TimeZone, q: u8, t: u8) -> String {
         },
         7 => format!("{tz:?}"),
         8 => format!("{}", tz.to_datetime(ts)),
-        _ => format!("{}", tz.is_unknown()),
+        9 => format!("{}", tz.is_unknown()),
+        10 => match tz.to_timestamp(datetime(t)) {
+            Ok(ts) => format!("Ok({})", ts.as_second()),
+            Err(_) => "Err".to_string(),
+        },
+        11 => tz
+            .following(ts)
+            .take(3)
+            .map(|tr| format!("{}/{}/{}", tr.timestamp().as_second(), tr.offset().seconds(), tr.abbreviation()))
+            .collect::<Vec<_>>()
+            .join(","),
+        _ => tz
+            .preceding(ts)
+            .take(3)
+            .map(|tr| format!("{}/{}/{}", tr.timestamp().as_second(), tr.offset().seconds(), tr.abbreviation()))
+            .collect::<Vec<_>>()
+            .join(","),
     }
 }
 
@@ -570,6 +586,16 @@ pub fn apply<E: Env>(me: u8, op: &Op, slots: &mut Slots, env: &mut E) -> bool {
                 env.fail("zoned_consistency", "Zoned ordering disagrees with its timestamp".into());
             }
             let _ = p.duration_until(q);
+            // Equal values hash equally.
+            use std::hash::{Hash, Hasher};
+            let h = |z: &Zoned| {
+                let mut s = std::collections::hash_map::DefaultHasher::new();
+                z.hash(&mut s);
+                s.finish()
+            };
+            if pq && h(p) != h(q) {
+                env.fail("zoned_consistency", "equal Zoned values hash differently".into());
+            }
         }
         Op::ZonedPair { a, b, which } => {
             let (Some(x), Some(y)) = (slots[ix(*a)].as_ref(), slots[ix(*b)].as_ref()) else {
